@@ -108,14 +108,23 @@ def errclass(e):
     return type(e).__name__
 
 
+class _Null(object):
+    def write(self, _s):
+        return 0
+
+    def flush(self):
+        pass
+
+
 class BrokerRig(object):
     UNKNOWN = "__no_such_portfolio__"
 
-    def __init__(self, t0, quotes_mil, fee, observer):
+    def __init__(self, t0, quotes_mil, fee, observer, printing=False):
         from qstrader.broker.simulated_broker import SimulatedBroker
         from qstrader.exchange.simulated_exchange import SimulatedExchange
         from qstrader import settings
-        settings.set_print_events(False)
+        self.printing = bool(printing)         # the library's default is to print every event; output is discarded
+        settings.set_print_events(self.printing)
         self.handler = StubHandler(dict((a, (cur(q["bid"]), cur(q["ask"]))) for a, q in quotes_mil.items()))
         self.fee = fee
         self.obs = observer
@@ -127,6 +136,20 @@ class BrokerRig(object):
 
     # -- one call named as in the specification ---------------------------------------------
     def apply(self, c):
+        import sys
+        from qstrader import settings
+        settings.set_print_events(self.printing)
+        if not self.printing:
+            return self._apply(c)
+        saved = sys.stdout
+        sys.stdout = _Null()
+        try:
+            return self._apply(c)
+        finally:
+            sys.stdout = saved
+            settings.set_print_events(False)
+
+    def _apply(self, c):
         from qstrader.execution.order import Order
         b = self.broker
         op = c["op"]
